@@ -91,8 +91,12 @@ func (c *clk) After(d time.Duration) <-chan time.Time {
 	c.mu.Lock()
 	if c.dead {
 		c.mu.Unlock()
-		c.exits <- struct{}{}
-		runtime.Goexit()
+		buf := make([]byte, 4096)
+		buf = buf[:runtime.Stack(buf, false)]
+		if bytes.Contains(buf, []byte("(*DelayedPriorityQueue).process")) {
+			c.exits <- struct{}{} // the roll-over goroutine ends here
+		}
+		runtime.Goexit() // enqueuers: their deferred `fin` signal fires
 	}
 	due := c.Manual.Now().UnixNano() + int64(d)
 	ch := c.Manual.After(d)
